@@ -114,6 +114,9 @@ def main(argv):
                "(bijection checked on the executed values); plus @dimOrder argument lists (permutations, duplicates, "
                "out-of-range, negative, constant expressions); evaluation = one (access, value tuple, backend) run")
     ck.assumptions = ["index and dimension values stay far from int overflow", "call arguments contain no assignment or comma operator"]
+    ck.trusted += ["harness/emu_launch.hpp (device scheduler emulation: for each work-group, for each work-item; index types of the real backends)",
+                   "g++ 12 as the reference semantics of the emitted C++ text and of the native sequential loop",
+                   "the C expression grammar of OccaProofs/Lemmas/ExprGrammar.lean is unambiguous (not proved)"]
     ck.translate(["gen_loops"])
     ck.prove("C19")
     hb = ck.harness("h_dim")
